@@ -556,6 +556,26 @@ def rule_lst(S):
                 if 'init' in v and not (v.get('name') or '').startswith('__') and \
                         any(x['k'] == 'DeclRefExpr' and (x.get('name') or '').startswith('__begin') for x in g.walk(v['init'])):
                     elem_decls.append(n)
+    if not elem_decls:
+        # the whole-range form: std::transform(result.begin(), result.end(), std::back_inserter(out), f) appends exactly
+        # one element per element of the result
+        for n in g.all_nodes():
+            if n['k'] in CALL_KINDS and (n.get('cq') or '') == 'std::transform':
+                a = call_args(g, n)
+                if len(a) == 4:
+                    b0, e0 = g.strip(a[0], casts=True), g.strip(a[1], casts=True)
+                    whole = b0 is not None and e0 is not None and b0['k'] in CALL_KINDS and e0['k'] in CALL_KINDS and \
+                        b0.get('cn') in ('begin', 'cbegin') and e0.get('cn') in ('end', 'cend') and \
+                        root_var(g, call_recv(g, b0)) is not None and \
+                        root_var(g, call_recv(g, b0)) == root_var(g, call_recv(g, e0))
+                    sink = any(x['k'] in CALL_KINDS and (x.get('cq') or '') == 'std::back_inserter' and
+                               any(y['k'] == 'DeclRefExpr' and y.get('id') == outp for y in g.walk(x))
+                               for x in g.walk(a[2]))
+                    if whole and sink:
+                        S.ob('R-LST', g.qname, 'every scanned entry is listed', True,
+                             'std::transform over the whole result into a back_inserter of the output: one output '
+                             'element per scanned entry', loc=short_loc(n))
+                        return
     if len(elem_decls) != 1:
         raise AnalysisBroken('R-LST: the walk over the scan result was not found in list_storages (%d candidates)' %
                              len(elem_decls))
